@@ -165,22 +165,30 @@ pub fn check_bits(v: &BitsVal, m: &BitModel, plan_seed: u64, o: BitOpts, ctx: &m
             BitsKind::Wide => 8192,
             _ => 1024,
         };
-        for &k in &select_indices(m.ones.len(), period, &mut rng, &o) {
-            note("select1", k as u128, 0, 0);
-            let s = v.select1(k).unwrap();
-            let e = m.ones.get(k).copied();
-            ctx.q();
-            ctx.absorb(&s);
-            ensure!(s == e, "{who}: select1({k}) = {:?}, expected {:?} (n = {n}, ones = {})", s, e, m.ones.len());
-            if o.unchecked && e.is_some() {
-                note("select1_unchecked", k as u128, 0, 0);
-                let u = unsafe { v.select1_unchecked(k) }.unwrap();
-                ctx.q();
-                ensure!(Some(u) == e, "{who}: select1_unchecked({k}) = {u}, select1 = {:?}", s);
-            }
-        }
+        // select1 and select0 queries are interleaved in a pseudo-random order (a structure that
+        // keeps hidden state between queries must not depend on which kind came before)
+        let mut qs: Vec<(bool, usize)> = select_indices(m.ones.len(), period, &mut rng, &o).into_iter().map(|k| (true, k)).collect();
         if kind != BitsKind::Da0 {
-            for &k in &select_indices(m.zeros.len(), period, &mut rng, &o) {
+            qs.extend(select_indices(m.zeros.len(), period, &mut rng, &o).into_iter().map(|k| (false, k)));
+        }
+        if plan_seed & 3 != 0 {
+            rng.shuffle(&mut qs);
+        }
+        for &(one, k) in &qs {
+            if one {
+                note("select1", k as u128, 0, 0);
+                let s = v.select1(k).unwrap();
+                let e = m.ones.get(k).copied();
+                ctx.q();
+                ctx.absorb(&s);
+                ensure!(s == e, "{who}: select1({k}) = {:?}, expected {:?} (n = {n}, ones = {})", s, e, m.ones.len());
+                if o.unchecked && e.is_some() {
+                    note("select1_unchecked", k as u128, 0, 0);
+                    let u = unsafe { v.select1_unchecked(k) }.unwrap();
+                    ctx.q();
+                    ensure!(Some(u) == e, "{who}: select1_unchecked({k}) = {u}, select1 = {:?}", s);
+                }
+            } else {
                 note("select0", k as u128, 0, 0);
                 let s = v.select0(k).unwrap();
                 let e = m.zeros.get(k).copied();
